@@ -3,6 +3,7 @@ package refjet
 import (
 	"bytes"
 	"fmt"
+	"math"
 	"path"
 	"reflect"
 	"sort"
@@ -181,6 +182,8 @@ func evalPerm(p *Program, perm int) (res permResult) {
 	e.list(root.Body)
 	return
 }
+
+func (e *env) quirk(name string) bool { return e.p.Quirks[name] }
 
 func (e *env) fail(class string, at interface{}) {
 	panic(&RefError{Class: class, At: at, File: e.file, Val: nil})
@@ -1011,6 +1014,9 @@ func Print(v interface{}) string {
 func FormatFloat(f float64) string {
 	if f != f || f > 1e15 || f < -1e15 {
 		panic(Unspec("float outside the printable alphabet"))
+	}
+	if f == 0 && math.Signbit(f) {
+		panic(Unspec("printing negative zero"))
 	}
 	return strconv.FormatFloat(f, 'f', -1, 64)
 }
